@@ -91,7 +91,7 @@ def meshAfter {α} (f : XFld α) (t : Bool) (uo : Nat → Option String) : Mesh 
   { region := regAfter f uo (if t then defaultTol else f.mesh.region.tol), n := f.mesh.n, bc := "", subs := [] }
 
 section
-variable {α : Type} {xe : XA α} {f : XFld α} {c p q t : Bool} {uo : Nat → Option String}
+variable [FieldAttrs] {α : Type} {xe : XA α} {f : XFld α} {c p q t : Bool} {uo : Nat → Option String}
 
 theorem gAxis_values (hf : f.WF) (a : Nat) (ha : a < f.mesh.ndim) :
     (gAxis f.mesh uo a).values = ap (f.mesh.region.lo a + f.mesh.cellAt a / 2) (f.mesh.cellAt a) (f.mesh.nAt a) := by
@@ -221,6 +221,7 @@ theorem p2Of_like (hf : f.WF) (h : LikeExport xe f c p q t uo) : p2Of xe f.mesh.
       field_simp
     linarith
 
+omit [FieldAttrs] in
 theorem unitsOf_like (h : LikeExport xe f c p q t uo) :
     Region.unitsOk f.mesh.ndim (unitsOf xe) = .ok (unitsAfter f.mesh.ndim uo) := by
   unfold unitsOf unitsAfter
@@ -249,10 +250,10 @@ theorem meshOf_like (hf : f.WF) (h : LikeExport xe f c p q t uo) :
   rw [regionMk_ok f.mesh.region.pmin f.mesh.region.pmax f.mesh.region.dims (unitsOf xe)
     (unitsAfter f.mesh.ndim uo) defaultTol hinv.2.1 hinv.1 hinv.2.2.1 hinv.2.2.2.2.1 (unitsOf_like h) hinv.2.2.2.2.2]
   simp only []
-  have hk := mkCell_ok (regAfter f uo defaultTol) f.mesh.n hf.mesh.2.1 hinv.2.2.2.2.2 hf.mesh.2.2
+  have hk := mkCellNow_ok (regAfter f uo defaultTol) f.mesh.n hf.mesh.2.1 hinv.2.2.2.2.2 hf.mesh.2.2
   have hcell : f.mesh.cell = tab (regAfter f uo defaultTol).ndim
       fun a => (regAfter f uo defaultTol).edge a / (f.mesh.n.getD a 0 : Rat) := rfl
-  show (Mesh.mkCell? (regAfter f uo defaultTol) f.mesh.cell "").bind _ = _
+  show (mkCellNow? (regAfter f uo defaultTol) f.mesh.cell).bind _ = _
   rw [hcell, hk]
   simp only [Except.bind]
   rw [h.tol]
@@ -288,17 +289,18 @@ theorem vdimsSet_like (hf : f.WF) (h : LikeExport xe f c p q t uo) :
     cases hv : f.vdims with
     | none => rfl
     | some l =>
-      obtain ⟨hl, hd⟩ := hf.labels l hv
+      obtain ⟨hl, hd, hr⟩ := hf.labels l hv
       cases l with
       | nil => simp at hl; omega
       | cons x l' =>
         unfold vdimsSet
-        simp only [hl, ne_eq, not_true_eq_false, if_false, hd, Bool.false_eq_true]
+        simp only [hl, ne_eq, not_true_eq_false, if_false, hd, hr, Bool.false_eq_true]
   · simp only [h1, if_false]
     have : f.nvdim = 1 := by have := hf.nvdim; omega
     rw [this]
     rfl
 
+omit [FieldAttrs] in
 theorem vdimsAfter_ne_none (h1 : 1 < f.nvdim) : vdimsAfter f ≠ none := by
   unfold vdimsAfter
   simp only [h1, if_true]
